@@ -1,0 +1,22 @@
+//go:build verif
+
+package pool
+
+import "net/http"
+
+// Verification hooks for property C17, owner -> address resolution (add-only; compiled only
+// with -tags verif).  They expose an unexported entry point and let the harness supply the
+// name resolution of the environment; they do not change behaviour.
+
+// VerifPeerAddr returns the address forwardAllocation / forwardRelease / checkPeer use for nodeID.
+func (p *PeerPool) VerifPeerAddr(nodeID string) string {
+	return p.getPeerAddr(nodeID)
+}
+
+// VerifSetTransport installs the transport of the forwarding client and of the health-probe
+// client (the harness uses it to resolve generated host names to loopback listeners, the way
+// DNS would in a deployment).  Timeouts and everything else stay as NewPeerPool set them.
+func (p *PeerPool) VerifSetTransport(rt http.RoundTripper) {
+	p.httpClient.Transport = rt
+	p.healthCheckClient.Transport = rt
+}
